@@ -113,6 +113,77 @@ def judge_standalone(src, R, S, geo, E, a, b):
   return {"status": "bad", "keys": keys, "witness": wit, **info}
 
 
+def compile_slice(out):
+  """Programs CPython refuses to compile: pytype reports python-compiler-error at a line;
+  the property quantifies over every reported error, so directives are tried on it too."""
+  import os
+  import shutil
+  import tempfile
+  from vf import boot, pt
+  from vf.oracle import c03_directives as od
+  c = out["counters"]
+  scratch = os.path.join(boot.BUILD, "scratch")
+  os.makedirs(scratch, exist_ok=True)
+  d = tempfile.mkdtemp(prefix="c03-", dir=scratch)
+
+  def run(text, tag):
+    path = os.path.join(d, tag + ".py")
+    with open(path, "w") as f:
+      f.write(text)
+    with warnings.catch_warnings():
+      warnings.simplefilter("ignore")
+      r = pt.analyze_file(path)
+    return r.pyi, [tuple(e) for e in r.errors]
+
+  try:
+    for i, src in enumerate(od.COMPILE_ERROR_PROGRAMS):
+      try:
+        S, R = run(src, f"m{i}")
+      except Exception as e:  # pylint: disable=broad-except
+        c["compile_slice_base_raised"] += 1
+        continue
+      targets = [e for e in R if e[0] == "python-compiler-error" and e[1]]
+      if not targets:
+        c["compile_slice_no_compiler_error"] += 1
+        continue
+      E, L = targets[0][0], targets[0][1]
+      edits = []
+      for spelling in (od.SPELL_DISABLE, od.SPELL_IGNORE):
+        comment = f"pytype: disable={E}" if spelling == od.SPELL_DISABLE else "type: ignore"
+        new = od.append_comment_tokens_only(src, L, comment)
+        if new is not None:
+          edits.append((spelling, new, od.expected_trailing(R, E, L, spelling), lambda n: n))
+      sh = lambda n: n + 1
+      edits.append(("stand-alone pytype: disable (to end of file)", f"# pytype: disable={E}\n" + src,
+                    od.expected_standalone(R, E, 1, None, sh), sh))
+      for spelling, new, exp, shift in edits:
+        try:
+          S2, R2 = run(new, f"m{i}e")
+        except Exception as e:  # pylint: disable=broad-except
+          c["compile_slice_edit_raised"] += 1
+          continue
+        out["n"] += 1
+        c["compile_slice_judged"] += 1
+        R2 = [e for e in R2 if e[0] != "late-directive"]
+        missing, added = od.diff_reports(exp, R2)
+        gone = {(n, shift(l), od.shift_message(m, shift)) for n, l, m in R} - set(map(tuple, exp))
+        survivors = [a for a in added if tuple(a) in gone]
+        added = [a for a in added if a not in survivors]
+        if not (missing or added or survivors or S2 != S):
+          c["compile_slice_ok"] += 1
+          continue
+        wit = {"kind": "compile", "src": src, "edited": new, "E": E, "L": L, "spelling": spelling, "report": R,
+               "report_after": R2, "expected_after": exp}
+        if survivors and not (missing or added or S2 != S):
+          out["violations"].append({"key": od.K_COMPILE, **wit})
+        else:
+          out["violations"].append({"key": f"compile-error program: directive ({spelling}) changes something else "
+                                           f"(missing={len(missing)}, added={len(added)}, stub={S2 != S})", **wit})
+        out["fps"].append(common.fp(["compile", src, spelling]))
+  finally:
+    shutil.rmtree(d, ignore_errors=True)
+
+
 def _nontrivial_trailing(geo, R, E, L):
   st = geo.statement_of(L)
   n_on_line = sum(1 for e in R if e[1] == L)
@@ -246,6 +317,8 @@ def child(arg):
           w["detail"] = detail
           w["program_seed"] = pseed
           out["violations"].append({"key": key, **w})
+  if arg.get("compile_slice"):
+    compile_slice(out)
   # Layer A
   c["lineset_contains_evals"] = mon.contains_evals
   c["lineset_sweep_evals"] = mon.sweep_evals
@@ -277,7 +350,7 @@ def run(tier, seed):
   for i in range(0, nprog, per):
     tasks.append({"fn": "vf.checks.c03:child", "id": f"b{i // per}", "timeout": 1500, "hashseed": "0",
                   "arg": {"seeds": seeds[i:i + per], "nblocks": list(nblocks), "max_pairs": max_pairs,
-                          "n_standalone": n_sa}})
+                          "n_standalone": n_sa, "compile_slice": i == 0}})
   classes, kinds = collections.Counter(), collections.Counter()
   for res in pool.run_tasks(tasks):
     if not res.get("ok"):
@@ -320,6 +393,15 @@ def replay(rec):
   if w.get("kind") == "layerA":
     print("Layer-A record; re-run the check:", w.get("what"))
     return 2
+  if w.get("kind") == "compile":
+    out = {"n": 0, "fps": [], "violations": [], "counters": collections.Counter()}
+    compile_slice(out)
+    hits = [v for v in out["violations"] if v["src"] == w["src"] and v["spelling"] == w["spelling"]]
+    for v in hits:
+      print(f"VIOLATION property={PID} replay=<replayed>")
+      print("  mechanism:", v["key"])
+      print("  report after:", v["report_after"])
+    return 1 if hits else 0
   src = w["src"]
   S, R = _analyze(src)
   geo = od.Geometry(src)
